@@ -179,4 +179,11 @@ def r3_line_grammar(ctx: Ctx) -> None:
     ctx.count("grammar_facts", 6)
 
 
-RULES = [r1_longest_match, r2_scoping, r3_line_grammar]
+
+def rb_binding_agreement(ctx: Ctx) -> None:
+    from ..ownership import binding_agreement
+
+    binding_agreement(ctx)
+
+
+RULES = [r1_longest_match, r2_scoping, r3_line_grammar, rb_binding_agreement]
